@@ -14,6 +14,7 @@ type Event struct {
 	Args []Val
 	Heap map[string]Term // heap snapshot at emission time
 	Desc string
+	Held []HeldLock // locks held when the event was emitted
 	Loop int // ordinal of the loop whose (single symbolic) iteration emitted the event; 0 = outside loops
 }
 
@@ -88,6 +89,7 @@ type State struct {
 	lastNow   *Term
 	trace     []string
 	loopHeld  []HeldLock
+	loopHeldBy map[int][]HeldLock
 	assumeTo  *State // evaluation copies forward their assumptions to the real state
 	dryFreshFrom int
 	dryFnFresh map[string]bool // arrays written in the dry run only at objects allocated by this function
@@ -144,6 +146,12 @@ func (st *State) clone() *State {
 	n.onceDone = make(map[string]Term, len(st.onceDone))
 	for k, v := range st.onceDone {
 		n.onceDone[k] = v
+	}
+	if st.loopHeldBy != nil {
+		n.loopHeldBy = make(map[int][]HeldLock, len(st.loopHeldBy))
+		for k, v := range st.loopHeldBy {
+			n.loopHeldBy[k] = v
+		}
 	}
 	if st.loopHeap != nil {
 		n.loopHeap = make(map[int]map[string]Term, len(st.loopHeap))
